@@ -104,10 +104,11 @@ class _Subst(ast.NodeTransformer):
         return ast.Name(id=node.id, ctx=ast.Load())
 
     def visit_Attribute(self, node):
-        v = node.value
-        if isinstance(v, ast.Name) and v.id == "self" and not self.bound_has("self") and node.attr in self.n.fields:
-            return ast.Attribute(value=ast.Name(id="self", ctx=ast.Load()), attr=self.n.fields[node.attr], ctx=ast.Load())
-        return ast.Attribute(value=self.visit(v), attr=node.attr, ctx=ast.Load())
+        # a private attribute of this class (on `self` or on another object of the class) is named after the constructor
+        # parameter it is built from, so that renaming the attribute does not matter
+        if node.attr in self.n.fields:
+            return ast.Attribute(value=self.visit(node.value), attr=self.n.fields[node.attr], ctx=ast.Load())
+        return ast.Attribute(value=self.visit(node.value), attr=node.attr, ctx=ast.Load())
 
     def bound_has(self, name):
         return any(name in s for s in self.bound)
@@ -213,14 +214,9 @@ class Norm:
         self.mirror = []         # (tested flag, set flag) pairs recognised in `if x & F: y |= G` chains
         self.fields, self.helpers = {}, {}
         if cls is not None:
+            self.fields = field_labels(cls)
             for m in cls.body:
-                if isinstance(m, ast.FunctionDef) and m.name == "__init__":
-                    for st in ast.walk(m):
-                        if isinstance(st, ast.Assign) and len(st.targets) == 1 and isinstance(st.targets[0], ast.Attribute) \
-                                and isinstance(st.targets[0].value, ast.Name) and st.targets[0].value.id == "self" \
-                                and isinstance(st.value, ast.Name):
-                            self.fields[st.targets[0].attr] = st.value.id
-                elif isinstance(m, ast.FunctionDef) and m.name.startswith("_") and not m.name.startswith("__"):
+                if isinstance(m, ast.FunctionDef) and m.name.startswith("_") and not m.name.startswith("__"):
                     self.helpers[m.name] = {"fn": m, "params": [a.arg for a in m.args.args[1:]]}
 
     # ---- expressions
@@ -403,6 +399,29 @@ class Norm:
             cond = " and ".join("(" + self.s(p) + ")" for p in path)
             out.append(f"{kind} {payload}".rstrip() + (f"  IF {cond}" if cond else ""))
         return out
+
+
+def field_labels(cls):
+    """{private attribute assigned in __init__: label}.  The label is the constructor parameter the value is built from
+    (`self._locs = frozenset(locs)` -> `locs`; a bare parameter likewise), `f<k>` if no parameter occurs in it."""
+    out = {}
+    init = next((m for m in cls.body if isinstance(m, ast.FunctionDef) and m.name == "__init__"), None)
+    if init is None:
+        return out
+    params = [a.arg for a in init.args.args[1:]] + [a.arg for a in init.args.kwonlyargs]
+    k = 0
+    for st in ast.walk(init):
+        if isinstance(st, ast.Assign) and len(st.targets) == 1 and isinstance(st.targets[0], ast.Attribute) \
+                and isinstance(st.targets[0].value, ast.Name) and st.targets[0].value.id == "self" and st.targets[0].attr.startswith("_"):
+            attr = st.targets[0].attr
+            used = [n.id for n in ast.walk(st.value) if isinstance(n, ast.Name) and n.id in params]
+            if used:
+                out[attr] = "F_" + used[0]      # `F_`: not to be confused with a public property of that name
+            elif attr not in out:
+                k += 1
+                out[attr] = f"F_{k}"
+    # an attribute that got a fallback label in one branch and a parameter in another keeps the parameter
+    return out
 
 
 def normal_form(fn, cls=None, module=None):
